@@ -224,7 +224,8 @@ def cases(draw, tier="quick", force_sel=None):
                     pat += c
                     i += 1
             case["glob"][filt] = bytes(pat) or b"*"
-        elif filt == "nonrec":
+        elif filt == "nonrec" and not any(n["type"] == "hlink" for n in case["nodes"]):
+            # (which name of a multiply-linked file is kept depends on the scan order once one of them is filtered out)
             case["glob"]["nonrec"] = True
         return case
     case["nodes"] = draw(treemodel.trees(mode=mode))
